@@ -2105,7 +2105,7 @@ class PrepareAst:
             def default_converter(x):
                 stmt = self.apply(x)
                 bound_stmt.append(stmt)
-                return stmt
+                return stmt.result()
 
             self.set_local(
                 inp.name,
@@ -2133,7 +2133,7 @@ class PrepareAst:
             def default_converter(x):
                 stmt = self.apply(x)
                 bound_stmt.append(stmt)
-                return stmt
+                return stmt.result()
 
             return out.Value(
                 FunctionDefinition.from_ast_fn(
